@@ -789,7 +789,11 @@ def normalize_slice(idx, dim):
             if stop is not None and start is not None and stop < start:
                 stop = start
         elif step < 0:
-            if start >= dim - 1:
+            if start < 0:
+                # ``indices`` clamps a start before the first element to -1, which
+                # would be re-read as "the last element": nothing is selected
+                start, stop = 0, 0
+            elif start >= dim - 1:
                 start = None
             if stop < 0:
                 stop = None
